@@ -49,7 +49,7 @@ func (e *varstoreEngine) Property() string { return "C12" }
 
 func (e *varstoreEngine) Plan(seed uint64, tier string) int {
 	if tier == "thorough" {
-		return 400000
+		return 1600000
 	}
 	return 24000
 }
